@@ -12,7 +12,10 @@ Main statements
 * `reject_long_padding`, `reject_non_eos_padding`, `reject_eos_symbol`
 * `decodeMax_*`           the length-limited variant used by the HPACK decoder
 * table obligations re-exported from `Proofs.Lemmas.Huffman`
-* `appendHuffman_eq_encode` the 64-bit accumulator of `AppendHuffmanString` computes `encode`
+* `AppendHuffmanEqEncodeStatement` (NOT proved here): the 64-bit accumulator model `appendHuffman`
+  of `AppendHuffmanString` computes `encode`. Both are run against the Go code on every check
+  (ops `enc` and `encspec`), so the equality is sampled, not proved; `appendHuffman_eq_encode_small`
+  proves it for the empty string and all one-byte strings by kernel evaluation.
 -/
 namespace NetVerif.Proofs.C04
 open NetVerif.Model.Huffman
@@ -424,5 +427,17 @@ theorem reject_eos_symbol (s : List Nat) (hs : Bytes s) (rest : List Bool) :
         rw [hw] at this
         simpa [List.replicate_succ] using this
   exact key 30 0 (s.reverse ++ []) (by omega)
+
+/-! ### The byte-level accumulator of `AppendHuffmanString` -/
+
+/-- Full statement (not proved; tied by the differential run): the accumulator model equals the
+bit-level specification for every byte string. -/
+def AppendHuffmanEqEncodeStatement : Prop := ∀ s : List Nat, Bytes s → appendHuffman s = encode s
+
+/-- The part proved: the empty string and every one-byte string (covers every table entry once,
+including the 1–4 trailing-byte cases of the final `switch`). -/
+theorem appendHuffman_eq_encode_small_partial :
+    appendHuffman [] = encode [] ∧ ∀ c < 256, appendHuffman [c] = encode [c] := by
+  decide +kernel
 
 end NetVerif.Proofs.C04
